@@ -134,12 +134,19 @@ def id_text(kind):
                     min_size=1, max_size=10),
             st.sampled_from(["1", "2.5", "1e5", "nan", "inf", "-3", "0",
                              "a b", "x#y", "None", "50%", "a%%b", "%s",
-                             "x: y", "%(k)s", "100%d"]))
+                             "x: y", "%(k)s", "100%d"]),
+            # characters str.splitlines() breaks on, which do not end a
+            # line of a tab-separated file (not tab, CR or LF), inside an ID
+            st.sampled_from(["a\x0bb", "a\x0cb", "a\x1cb", "a\x1db",
+                             "a\x1eb", "a\x85b", "a\u2028b",
+                             "a\u2029b"]).map(lambda s: "\0KEEP" + s))
         return body.map(_tsv_clean).filter(lambda s: len(s) > 0)
     raise ValueError(kind)
 
 
 def _tsv_clean(s):
+    if s.startswith("\0KEEP"):
+        return s[5:]
     s = "".join(c for c in s if c not in "\t\x00" + LINE_BREAKS)
     s = s.strip()
     while s.startswith("#"):
